@@ -110,8 +110,7 @@ class HttpPeer:
                               "at_written": len(self.pipe.written)})
         if sel == "h2":
             self.proto = "h2"
-        elif sel == "http/1.1":
-            self.proto = "h1"
+        # otherwise the protocol is detected from the first bytes (a client with HTTP/1.1 disabled speaks HTTP/2 regardless)
         return sel
 
     def on_client_close(self):
